@@ -25,9 +25,10 @@ type tdesc struct {
 }
 
 type fdesc struct {
-	Name string `json:"name"`
-	Tag  string `json:"tag,omitempty"` // XPath text; "" = untagged (keeps its sentinel)
-	T    *tdesc `json:"t"`
+	Name     string `json:"name"`
+	Tag      string `json:"tag,omitempty"` // XPath text; "" = untagged (keeps its sentinel)
+	T        *tdesc `json:"t"`
+	Embedded bool   `json:"embedded,omitempty"` // an embedded (anonymous) struct field
 }
 
 type c19Case struct {
@@ -35,6 +36,7 @@ type c19Case struct {
 	Select      string         `json:"select"`                // query producing the node-set handed to Unmarshal
 	Target      *tdesc         `json:"target"`                // type pointed to by the value passed (struct, slice or pointer chain)
 	Prepopulate bool           `json:"prepopulate,omitempty"` // tagged slice fields of the top struct hold two elements before the call
+	Prefill     bool           `json:"prefill,omitempty"`     // tagged pointer fields of the top struct point to caller-owned values before the call
 }
 
 var c19Fill = reg("C19", "c19-fill", checkC19)
@@ -59,7 +61,7 @@ func (d *tdesc) typ() reflect.Type {
 	case "struct":
 		var fs []reflect.StructField
 		for _, f := range d.Fields {
-			sf := reflect.StructField{Name: f.Name, Type: f.T.typ()}
+			sf := reflect.StructField{Name: f.Name, Type: f.T.typ(), Anonymous: f.Embedded}
 			if f.Tag != "" {
 				sf.Tag = reflect.StructTag("xsel:" + strconv.Quote(f.Tag))
 			}
@@ -92,6 +94,17 @@ func sentinel(t reflect.Type) reflect.Value {
 		v.SetUint(77)
 	case reflect.Float32, reflect.Float64:
 		v.SetFloat(7.5)
+	case reflect.Struct:
+		// an untagged struct field: every field inside keeps a sentinel, tagged or not
+		for i := 0; i < t.NumField(); i++ {
+			v.Field(i).Set(sentinel(t.Field(i).Type))
+		}
+	case reflect.Pointer:
+		p := reflect.New(t.Elem())
+		p.Elem().Set(sentinel(t.Elem()))
+		v.Set(p)
+	case reflect.Slice:
+		v.Set(reflect.Append(v, sentinel(t.Elem())))
 	}
 	return v
 }
@@ -269,6 +282,10 @@ func checkC19(c *c19Case) error {
 		for i, f := range base.Fields {
 			if f.Tag == "" {
 				target.Elem().Field(i).Set(sentinel(f.T.typ()))
+			} else if f.T.Kind == "ptr" && c.Prefill {
+				// a tagged pointer field that already points somewhere: the pointee is the
+				// caller's ("pointer fields freshly allocated")
+				target.Elem().Field(i).Set(sentinel(f.T.typ()))
 			} else if f.T.Kind == "slice" && c.Prepopulate {
 				// a tagged slice field that already holds elements: they must be replaced
 				fv := target.Elem().Field(i)
@@ -296,10 +313,37 @@ func checkC19(c *c19Case) error {
 	case "slice":
 		want, wantErr = convert(base, res)
 	}
+	// what the caller's pointers point to, before the call
+	type owned struct {
+		field int
+		ptr   reflect.Value
+		was   reflect.Value
+	}
+	var owns []owned
+	if base.Kind == "struct" && c.Prefill {
+		for i, f := range base.Fields {
+			if f.Tag != "" && f.T.Kind == "ptr" {
+				ptr := target.Elem().Field(i)
+				was := reflect.New(ptr.Type().Elem()).Elem()
+				was.Set(ptr.Elem())
+				if was.Kind() == reflect.Pointer && !was.IsNil() {
+					continue // deeper chains: only the outermost pointee is tracked
+				}
+				owns = append(owns, owned{i, ptr.Elem().Addr(), was})
+			}
+		}
+	}
 	gotErr := safeUnmarshal(res, arg.Interface())
 	st.Eval(1)
 	if pe, ok := gotErr.(*panicError); ok {
 		return fmt.Errorf("Unmarshal into %v panicked: %v", arg.Type(), pe.v)
+	}
+	if gotErr == nil {
+		for _, o := range owns {
+			if err := deepEq(o.ptr.Elem(), o.was, "caller's value"); err != nil {
+				return fmt.Errorf("Unmarshal(%s) into %v wrote through the pointer the field %s held before the call instead of allocating (pointer fields are freshly allocated): %v", c.Select, arg.Type(), base.Fields[o.field].Name, err)
+			}
+		}
 	}
 	if wantErr == errUnspecified {
 		st.Discard("numeric-result-outside-field-range")
@@ -355,8 +399,20 @@ func genField(t *rapid.T, depth int, idx int) fdesc {
 		kind := []string{"float32", "float64"}[rapid.IntRange(0, 1).Draw(t, "floatKind")]
 		f.T, f.Tag = &tdesc{Kind: kind}, pick(t, "floatTag", floatTags)
 	case k == 6:
-		// untagged field with a sentinel
-		f.T = &tdesc{Kind: []string{"string", "int", "bool", "float64"}[rapid.IntRange(0, 3).Draw(t, "untaggedKind")]}
+		// untagged field with a sentinel; also untagged structs (embedded or named) whose own
+		// fields carry tags: untagged means untouched, all the way down
+		switch u := rapid.IntRange(0, 6).Draw(t, "untaggedKind"); {
+		case u <= 3:
+			f.T = &tdesc{Kind: []string{"string", "int", "bool", "float64"}[u]}
+		default:
+			f.T = &tdesc{Kind: "struct", Fields: []fdesc{{Name: "ID", Tag: pick(t, "strTag", strTags), T: &tdesc{Kind: "string"}}, {Name: "Keep", T: &tdesc{Kind: "string"}},
+				{Name: "N", Tag: "count(*)", T: &tdesc{Kind: "int"}}}}
+			if u == 6 {
+				f.Embedded = true
+			} else if u == 5 {
+				f.T = &tdesc{Kind: "ptr", Elem: f.T}
+			}
+		}
 	case k == 7:
 		// slice of scalars
 		ek := []string{"string", "int", "bool", "float64", "uint8"}[rapid.IntRange(0, 4).Draw(t, "sliceElem")]
@@ -432,6 +488,27 @@ type unexportedTagged struct {
 	Shown  string `xsel:"name()"`
 }
 
+type c19inner struct {
+	A string `xsel:"name()"`
+}
+
+type unexportedStructField struct {
+	Shown  string   `xsel:"name()"`
+	hidden c19inner `xsel:"."` //nolint
+}
+
+type unexportedSliceField struct {
+	hidden []string `xsel:"*"` //nolint
+}
+
+type unexportedPtrField struct {
+	hidden *c19inner `xsel:"."` //nolint
+}
+
+type unexportedEmbedded struct {
+	c19inner `xsel:"."`
+}
+
 type ifaceField struct {
 	Any any `xsel:"."`
 }
@@ -443,6 +520,10 @@ type mapField struct {
 type arrayField struct {
 	A [2]string `xsel:"*"`
 }
+
+var c19BadKinds = []string{"nil", "non-pointer struct", "nil pointer", "pointer to nil pointer", "map", "array", "chan", "func", "2-D slice", "unexported tagged field", "interface field", "map field", "array field", "int", "string",
+	"pointer to nil slice pointer", "pointer to pointer to nil struct pointer", "pointer to nil pointer to slice of structs",
+	"unexported tagged struct field", "unexported tagged slice field", "unexported tagged pointer field", "embedded unexported struct with a tag"}
 
 type c19BadCase struct {
 	Events []xmodel.Event `json:"events"`
@@ -492,6 +573,14 @@ func checkC19Bad(c *c19BadCase) error {
 		target = &[][]string{}
 	case "unexported tagged field":
 		target = &unexportedTagged{}
+	case "unexported tagged struct field":
+		target = &unexportedStructField{}
+	case "unexported tagged slice field":
+		target = &unexportedSliceField{}
+	case "unexported tagged pointer field":
+		target = &unexportedPtrField{}
+	case "embedded unexported struct with a tag":
+		target = &unexportedEmbedded{}
 	case "interface field":
 		target = &ifaceField{}
 	case "map field":
@@ -555,6 +644,7 @@ func TestC19(t *testing.T) {
 			c.Target = &tdesc{Kind: "ptr", Elem: c.Target}
 		}
 		c.Prepopulate = rapid.IntRange(0, 3).Draw(t, "prepopulate") == 0
+		c.Prefill = rapid.IntRange(0, 2).Draw(t, "prefill") == 0
 		shape, interesting := shapeOf(c.Target)
 		st.Class("target=" + c.Target.Kind)
 		if interesting {
@@ -567,8 +657,7 @@ func TestC19(t *testing.T) {
 		c19Fill.run(t, c)
 	})
 	runProp(t, "unsupported", 16000, 64000, func(t *rapid.T) {
-		kinds := []string{"nil", "non-pointer struct", "nil pointer", "pointer to nil pointer", "map", "array", "chan", "func", "2-D slice", "unexported tagged field", "interface field", "map field", "array field", "int", "string",
-			"pointer to nil slice pointer", "pointer to pointer to nil struct pointer", "pointer to nil pointer to slice of structs"}
+		kinds := c19BadKinds
 		c := &c19BadCase{Events: xmodel.Gen(t, c19Doc()), Target: kinds[rapid.IntRange(0, len(kinds)-1).Draw(t, "kind")],
 			Select: pick(t, "select", []string{"/*", "//a", "/nosuch", "//*", "1", "'s'", "true()"})}
 		st.Class("unsupported " + c.Target)
